@@ -22,7 +22,7 @@ PROPS = {
     "C02": dict(mod="checks.c02", quick_runs=64, thorough_s=1500, opts=dict(variants=6), thorough_opts=dict(variants=12)),
     "C03": dict(mod="checks.c03", quick_runs=96, thorough_s=1500, opts=dict(episodes=4, wall_p=0.12), thorough_opts=dict(episodes=6, wall_p=0.15)),
     "C04": dict(mod="checks.c04", quick_runs=96, thorough_s=1500, opts=dict(episodes=3), thorough_opts=dict(episodes=5)),
-    "C05": dict(mod="checks.c05", quick_runs=112, thorough_s=1500, opts=dict(wall_p=0.1), thorough_opts=dict(wall_p=0.15)),
+    "C05": dict(mod="checks.c05", quick_runs=112, thorough_s=1500, opts=dict(wall_p=0.25, pause_p_wall=0.8), thorough_opts=dict(wall_p=0.25)),
     "C06": dict(mod="checks.c06", quick_runs=48, thorough_s=1500, opts=dict(max_nodes=4, max_steps=8, compiled_p=0.4), thorough_opts=dict(max_nodes=5, max_steps=12, compiled_p=0.6)),
     "C07": dict(mod="checks.c07", quick_runs=64, thorough_s=1500, opts=dict(max_nodes=4, max_steps=8, pairs=2, generated_p=0.3), thorough_opts=dict(max_nodes=5, max_steps=12, pairs=6, generated_p=0.3)),
     "C08": dict(mod="checks.c08", quick_runs=32, thorough_s=1500, opts=dict(max_nodes=4, max_steps=14, variants=3), thorough_opts=dict(max_nodes=5, max_steps=20, variants=6)),
